@@ -166,7 +166,8 @@ Ltac rw_cmp := repeat match goal with
   | H : Z.eqb ?a ?b = _ |- context [Z.eqb ?a ?b] => rewrite H
   | H : Z.ltb ?a ?b = _ |- context [Z.ltb ?a ?b] => rewrite H
   end.
-Ltac ar := first [(rw_cmp; reflexivity) | apply arith_I32_small; lia | apply arith_U32 ].
+Ltac ar := first [(rw_cmp; reflexivity) | apply arith_I32_small; lia
+  | (rewrite !wrap_I32_small by (change (2 ^ 31)%Z with 2147483648%Z; lia); apply arith_I32_small; lia) | apply arith_U32 ].
 Ltac leaf_hyp := match goal with
   | H : forall l, eval (tst _ l _) ?e = _ |- eval (tst _ _ _) ?e = _ => apply H
   | H : eval ?s ?e = _ |- eval ?s ?e = _ => apply H
